@@ -54,6 +54,17 @@ def load_variants(prop: str) -> List[Dict[str, Any]]:
                 continue
             out.append({"name": f"seeded/{d}", "patch": os.path.join(sd, d, "patch.diff"),
                         "expect": meta.get("expect", "miss"), "why": meta.get("expect_reason", "")})
+    rd = os.path.join(VERIF, "refactors")
+    if os.path.isdir(rd):
+        for d in sorted(os.listdir(rd)):
+            meta_p = os.path.join(rd, d, "meta.json")
+            if not os.path.exists(meta_p):
+                continue
+            with open(meta_p) as f:
+                meta = json.load(f)
+            out.append({"name": f"refactors/{d}", "patch": os.path.join(rd, d, "patch.diff"), "expect": "silent",
+                        "error_ok": prop in meta.get("analysis_error_ok", {}),
+                        "why": meta.get("analysis_error_ok", {}).get(prop, "")})
     return out
 
 
@@ -129,7 +140,8 @@ def _run_variant(args) -> Dict[str, Any]:
     new = sorted(fail - set(base_fail))
     res = {"name": name, "expect": expect, "new_failing": new[:6], "error": err}
     if expect == "silent":
-        res["status"] = "pass" if not new and err is None else "FAIL"
+        ok_err = err is None or (v.get("error_ok") and not err.startswith("internal"))
+        res["status"] = "pass" if not new and ok_err else "FAIL"
     elif expect == "miss":
         res["status"] = "miss-now-caught" if new else "miss"
     else:
